@@ -4,7 +4,11 @@
    simulation config the same is printed for every visited state of the random growth.          *)
 EXTENDS MC_CWLBinding, Json, IOUtils, SequencesExt
 
-Case(fam, t) == [fam |-> fam, tool |-> t, exp |-> Expected(t)]
+\* more / expmore: the values and the expectations of the later jobs of a step (<<>> for a tool that runs once)
+Case(fam, t) == [fam |-> fam, tool |-> t, exp |-> Expected(t), more |-> <<>>, expmore |-> <<>>]
+StepCase(fam, r) == [fam |-> fam, tool |-> r.tool, exp |-> ExpectedJob(r.tool, r.more, 1), more |-> r.more,
+                     expmore |-> [j \in 1..Len(r.more) |-> ExpectedJob(r.tool, r.more, j + 1)]]
+StepCasesOf(fam, S) == LET q == SetToSeq(S) IN [i \in 1..Len(q) |-> StepCase(fam, q[i])]
 CasesOf(fam, S) == LET q == SetToSeq(S) IN [i \in 1..Len(q) |-> Case(fam, q[i])]
 AllCases == (IF "single" \in Families THEN CasesOf("single", FamSingleOK) ELSE <<>>)
             \o (IF "noshellq" \in Families THEN CasesOf("noshellq", FamNoShellQOK) ELSE <<>>)
@@ -12,6 +16,11 @@ AllCases == (IF "single" \in Families THEN CasesOf("single", FamSingleOK) ELSE <
             \o (IF "quirk" \in Families THEN CasesOf("quirk", FamQuirk) ELSE <<>>)
             \o (IF "shell" \in Families THEN CasesOf("shell", FamShell) ELSE <<>>)
             \o (IF "streams" \in Families THEN CasesOf("streams", FamStreams) ELSE <<>>)
+            \o (IF "jobs" \in Families
+                THEN StepCasesOf("jobs-single", FamJobs.single) \o StepCasesOf("jobs-streams", FamJobs.streams)
+                     \o StepCasesOf("jobs-args", FamJobs.args) \o StepCasesOf("jobs-multi", FamJobs.multi)
+                     \o StepCasesOf("jobs-shell", FamJobs.shell)
+                ELSE <<>>)
 
 ASSUME "OUT_FILE" \in DOMAIN IOEnv => JsonSerialize(IOEnv.OUT_FILE, AllCases)
 
